@@ -236,6 +236,24 @@ def build(tier, repo):
             r7.ok(key, "src/C/%s" % defs[name][0][0], ref)
         else:
             r7.violation(key, "src/C/%s" % defs[name][0][0], "macro %s differs from its reference definition" % name, ref, seen[:2])
+    from .. import cmisc_rules as mr5
+    from .. import crefusal
+    allf = ["blas.c", "lapack.c", "base.c", "dense.c", "sparse.c", "misc_solvers.c"]
+    r14 = chk.rule("C19-R14", "no refusal is dead: a test that repeats one its block has already made leaves the argument it names unchecked",
+                   "inconsistent arguments raise a Python exception before anything is addressed")
+    nd = 0
+    for f_ in allf:
+        nd += crefusal.dead_refusal_rule(r14, cs[f_], cs[f_].order)
+    chk.note_analysed("refusals_checked", nd)
+    r14.require(600)
+    r15 = chk.rule("C19-R15", "a test of an allocation result has an effect (`if (!p) NULL;` is a missing return)",
+                   "no NULL pointer is dereferenced after a failed allocation")
+    chk.note_analysed("pointer_tests", mr5.no_effect_rule(r15, cs, allf))
+    r15.require(80)
+    r16 = chk.rule("C19-R16", "free() is applied to local C allocations only, never to a Python object",
+                   "no argument is freed behind the interpreter's back")
+    chk.note_analysed("frees_checked", mr5.free_local_rule(r16, cs, allf))
+    r16.require(40)
     r7.require(14)
     return chk
 
